@@ -38,6 +38,7 @@ _MS = MethodSet([
     dict(pos=[("x", ("Dep", ("K", 1), 3), False)], body="return (3, call_next(x))"),
     dict(pos=[("x", ("raw", "list"), False)], body="return [recurse(a) for a in x]"),
     dict(pos=[("x", ("K", 2), False)], body="return 5"),
+    dict(pos=[("x", ("raw", "list"), False)], body="return (6, call_next(x[0]))"),     # call_next with another argument type
 ])
 
 
@@ -142,6 +143,8 @@ def make_run(W, shape, known_active=None, replay_info=None):
             a = W.K[0]()
             a.flag = True
             return [a, [W.K[1]()]]
+        if c == 5:
+            return [W.K[0]()]
         a = W.K[c]()
         a.flag = flag
         return a
@@ -281,6 +284,8 @@ SCEN = [
     dict(name="call-vs-chain", methods=[0, 1, 2, 3], warm=[[3, False]], a=["call", 1, True], b=["call", 0, False]),
     dict(name="call-vs-resolve", methods=[0, 1, 2, 3], a=["resolve", 0, False], b=["call", 0, False]),
     dict(name="resolve-vs-call-built", methods=[4, 0, 2, 3], warm=[[3, False]], a=["call", 4, False], b=["resolve", 1, False]),
+    dict(name="miss-vs-call_next-other-type", methods=[0, 1, 2, 6], warm=[[3, False]], a=["call", 0, False], b=["call", 5, False]),
+    dict(name="first-vs-call_next-other-type", methods=[0, 1, 2, 6], a=["call", 0, False], b=["call", 5, False]),
 ]
 
 
@@ -296,7 +301,7 @@ def count_lines(shape):
 
 def gen_shapes(tier, seed):
     shapes = []
-    scen = SCEN if tier != "quick" else [SCEN[i] for i in (0, 1, 4, 5, 6)]
+    scen = SCEN if tier != "quick" else [SCEN[i] for i in (0, 1, 4, 5, 6, 8)]
     for s in scen:
         n = count_lines(s)
         chunks = 12 if tier == "quick" else 32
@@ -334,7 +339,7 @@ def main(tier, seed):
         PID, tier, seed, t0, results, level="model_checking",
         bounds=dict(threads=2, preemptions="1 (every executed ovld line of thread A is a switch point; B then runs to completion)"
                     + ("" if tier == "quick" else "; 2 on a reduced set of first switch points (every 40th line), second switch at every line of B"),
-                    scenarios=[s["name"] for s in (SCEN if tier != "quick" else [SCEN[i] for i in (0, 1, 4, 5, 6)])],
+                    scenarios=[s["name"] for s in (SCEN if tier != "quick" else [SCEN[i] for i in (0, 1, 4, 5, 6, 8)])],
                     granularity="source lines of ovld/*.py and generated <ovld:...> code (not bytecodes; a switch inside a line is outside the claim)",
                     hierarchy="fixed: K0 < K1, K2 apart"),
         rule="one state = one (scenario, schedule); non-trivial = a pre-emption actually happened",
